@@ -30,18 +30,32 @@ def _isinstance_classes(ctx, f, test, var=None):
     return out
 
 
-def _if_chain(node):
-    """[(test or None, body)] of an if/elif/else chain"""
+def _terminates(body):
+    return bool(body) and isinstance(body[-1], (ast.Return, ast.Raise, ast.Continue, ast.Break))
+
+
+def _if_chain(node, parent_body=None):
+    """[(test or None, body)] of an if/elif/else chain.  With parent_body, a run of consecutive `if c: ...; return`
+    statements (early-return style) counts as one chain, the statements after the last of them as its else part."""
     out = []
     cur = node
     while True:
         out.append((cur.test, cur.body))
         if len(cur.orelse) == 1 and isinstance(cur.orelse[0], ast.If):
             cur = cur.orelse[0]
-        else:
-            if cur.orelse:
-                out.append((None, cur.orelse))
+            continue
+        if cur.orelse:
+            out.append((None, cur.orelse))
             break
+        if parent_body is not None and _terminates(cur.body) and any(x is (node if len(out) == 1 else cur) for x in parent_body):
+            idx = [i for i, x in enumerate(parent_body) if x is cur]
+            if idx and idx[0] + 1 < len(parent_body):
+                nxt = parent_body[idx[0] + 1]
+                if isinstance(nxt, ast.If):
+                    cur = nxt
+                    continue
+                out.append((None, parent_body[idx[0] + 1:]))
+        break
     return out
 
 
@@ -53,7 +67,7 @@ def regexp_recursions(ctx):
             continue
         for st in f.node.body:
             if isinstance(st, ast.If):
-                chain = _if_chain(st)
+                chain = _if_chain(st, f.node.body)
                 tested = set()
                 for t, _ in chain:
                     if t is not None:
@@ -68,7 +82,7 @@ def regexp_recursions(ctx):
 
 
 def check_regexp_recursion(ctx, rep, f, st):
-    chain = _if_chain(st)
+    chain = _if_chain(st, f.node.body)
     tested = set()
     var = None
     for (t, body) in chain:
@@ -119,7 +133,7 @@ def check_generator_mapping(ctx, rep, f):
     for st in f.node.body:
         if not isinstance(st, ast.If):
             continue
-        for (t, body) in _if_chain(st):
+        for (t, body) in _if_chain(st, f.node.body):
             if t is None:
                 continue
             tests = _isinstance_classes(ctx, f, t)
@@ -202,7 +216,7 @@ def ext_table(ctx, f):
     table = {}
     for st in walk_no_nested(f.node):
         if isinstance(st, ast.If):
-            for (t, body) in _if_chain(st):
+            for (t, body) in _if_chain(st, f.node.body):
                 if t is None:
                     continue
                 ext = None
@@ -247,7 +261,7 @@ def command_table(ctx, f):
     out = {}
     for st in f.node.body:
         if isinstance(st, ast.If):
-            for (t, body) in _if_chain(st):
+            for (t, body) in _if_chain(st, f.node.body):
                 if t is None:
                     continue
                 lits = []
